@@ -92,6 +92,9 @@ class G:
 
     def email(self):
         t = self.tok("E")
+        if self.exotic and self.r.chance(1, 6):
+            # local parts of 63 / 64 / 65 characters (the regular expression has no length limit)
+            t = t + "." + "l" * (self.r.choice([63, 64, 65]) - len(t) - 1)
         return t + self.r.choice(["@ex-ample.org", "@ex-ample.org", "@Ex-Ample.ORG", ".Mixed.Case@EXAMPLE.com"])
 
     def num(self):
@@ -122,6 +125,9 @@ class G:
         t = self.tok("F")
         if r.chance(1, 6):
             t = t + "." + self.tok("F")
+        if self.exotic and r.chance(1, 12):
+            # names that contain an IPv4 address, look like a command key, or like an operator argument
+            t = t + r.choice([".192.168.1.10", "_10.0.0.7:27017", "10.1.2.3"])
         if self.exotic and r.chance(1, 5):
             # keys that need escaping when printed: control characters, quote, backslash, HTML, non-ASCII, U+2028
             t = t + r.choice(["\n", "\t", "\u0001", "\"", "\\", "\\u0041", "<&>", "é", "\u2028", "\U0001F600", " ", "\r", "\u007f", "/", "\x1f", "\x1e", "\\u003c", "\\u0026x"])
@@ -596,6 +602,12 @@ class G:
                        ("storage", Obj([])), ("protocol", "op_msg"), ("durationMillis", Num(str(r.below(9000))))]:
             if r.chance(2, 3):
                 attr.set(kk, vv)
+        if self.exotic and r.chance(1, 4):
+            # deep nesting with UNSORTED keys outside the zones: key order must survive at any depth
+            deep = Obj([("zz", Num("1")), ("aa", "kept"), ("mm", [Num("2"), Obj([("y", None), ("b", True)])])])
+            for lvl in range(r.choice([20, 33, 40, 70])):
+                deep = Obj([("z%d" % (lvl % 3), deep), ("a", Num(str(lvl)))]) if lvl % 2 else Obj([("n", deep), ("b", "k"), ("a", [deep] if lvl % 7 == 3 else Num("0"))])
+            attr.set("zqdeepmeta", deep)
         if self.exotic and r.chance(1, 2):
             attr.set("appName", kept_text(r))
             if r.chance(1, 3):
@@ -611,7 +623,7 @@ class G:
                 return v, c
 
 
-KEPT_TEXTS = ["app\x1fname", "a\x1e", "\x7f", "mongosh 2.1 <&> \u2028", "pre\\u003cescaped\\u003e \\u0026", "\\\\u003c", "tab\there", "q\"uote", "back\\slash", "nul\x00", "é中\U0001F600",
+KEPT_TEXTS = ["peer 10.20.30.40:27017 and 192.168.0.1", "ends with a backslash\\", "C:\\Users\\bob\\", "app\x1fname", "a\x1e", "\x7f", "mongosh 2.1 <&> \u2028", "pre\\u003cescaped\\u003e \\u0026", "\\\\u003c", "tab\there", "q\"uote", "back\\slash", "nul\x00", "é中\U0001F600",
               "plain", "<b>", "a&b", "\\u0041", "\\n", "\\", "\\\\", "/slash\\/", "\x1f", "x\x1fy\x1fz", "\ud7ff\ue000", "\ufffd", "\x01\x02\x03"]
 
 
